@@ -319,8 +319,12 @@ func (p *Parent) runJob(j job, sum *Summary) {
 			"-class", j.class, "-start", strconv.Itoa(start), "-count", strconv.Itoa(count), "-out", out}
 		ctx, cancel := context.WithTimeout(context.Background(), p.jobTimeout())
 		var cmd *exec.Cmd
-		if p.M.MemLimitKB > 0 {
-			sh := fmt.Sprintf("ulimit -v %d; exec %q", p.M.MemLimitKB, p.Exe)
+		memKB := p.M.MemLimitKB
+		if memKB == 0 {
+			memKB = 4000000 // every worker runs under an address-space limit so that a forged count kills the child, not the sandbox
+		}
+		if memKB > 0 {
+			sh := fmt.Sprintf("ulimit -v %d; exec %q", memKB, p.Exe)
 			for _, a := range args {
 				sh += " " + fmt.Sprintf("%q", a)
 			}
